@@ -20,7 +20,8 @@ ENGINE = "faultworld"
 
 # String contents for which print->parse is not the identity on the pinned tree are a pure-input matter
 # (C04, not claimed here); the fallback *contract* is exercised with contents that do round-trip.
-SAFE_WORDS = ["Hello", "World", "it's", 'say "hi"', "[CN]name[CR]", "two  spaces", "ünï", "100%", "{x}", "", "#", "//nocomment", "/*nc*/"]
+SAFE_WORDS = ["Hello", "World", "it's", 'say "hi"', "[CN]name[CR]", "two  spaces", "ünï", "100%", "{x}", "", "#", "//nocomment", "/*nc*/",
+              "a\x0bb", "line\u2028sep", "nel\x85x", "fs\x1cgs\x1d"]
 
 
 def gen_input(idx: int, run_seed: int) -> dict:
@@ -72,12 +73,20 @@ def _fast_enough(doc: dict) -> bool:
 
 
 def _convert(doc: dict) -> dict:
-    sut.quiet_logging()
+    sut.quiet_logging(_log_level(doc))
     return sut.decompile_exps(doc)
 
 
+def _log_level(doc: dict):
+    """DEBUG logging is an environment knob (the DEBUG paths format ops and graphs); derived from the input so that a
+    replay uses the same level."""
+    import logging
+
+    return logging.DEBUG if seeds.H("loglevel", model.canon({"routines": doc["routines"]})) % 3 == 0 else logging.WARNING
+
+
 def _convert_traced(doc: dict, target) -> dict:
-    sut.quiet_logging()
+    sut.quiet_logging(_log_level(doc))
     tr = trace.AssertTracer(tuple(target) if target else None)
     d, _ = sut.new_decompiler(doc)
     try:
